@@ -454,7 +454,10 @@ func init() {
 				lines++
 			}
 			r.Check(okS && lines == nc, "stream-once", "stream export is not one record per chunk in order", cv)
-			// ---- vector database formats
+			// ---- vector database formats (now and then with a text of some 45 KB: no format may shorten it)
+			if it%20 == 0 && nc > 0 {
+				chunks[0].Text = strings.Repeat("long text \u00e9\u4e2d ", 3000)
+			}
 			emb := make([][]float64, nc)
 			for i := range emb {
 				emb[i] = []float64{0.5, float64(i)}
